@@ -12,7 +12,7 @@ Faithful on purpose (these are what the emitted code relies on):
   * the operand stack survives jumps; bin_op / if_stmt / while_loop / call clear it; fast_rev2 / store / equ demand exact sizes;
   * array views (`xs[i]`) are pointers until an instruction dereferences them."""
 import z3
-from core import (Fail, Unsupported, OutOfBound, NIL, ListRef, Cell, Fn, Ptr, CellPtr, Obj, BuiltIn, list_builtin, LIST_BUILTINS, MapRef, MapPtr, map_key, map_builtin, MAP_BUILTINS, is_sym, is_int, is_bool, arith, compare, negate,
+from core import (Fail, Unsupported, OutOfBound, NIL, ListRef, Cell, Fn, Ptr, CellPtr, Obj, BuiltIn, list_builtin, LIST_BUILTINS, MapRef, MapPtr, Some, map_key, map_builtin, MAP_BUILTINS, is_sym, is_int, is_bool, arith, compare, negate,
                   logic_not, logic, equals)
 
 SPECIAL = ("<if>", "<else>", "<while>")
@@ -73,6 +73,10 @@ class Machine:
         self.stack.pop()
 
     # ---------------------------------------------------------------- values
+    @staticmethod
+    def unsome(v):
+        return v.v if isinstance(v, Some) else v
+
     @staticmethod
     def deref(v):
         while True:
@@ -323,6 +327,10 @@ class Machine:
                 r = self.deref(ops.pop())
                 l = self.deref(ops.pop())
                 sym = a[0]
+                if sym in ("=", "is"):
+                    l, r = self.unsome(l), self.unsome(r)
+                elif isinstance(l, Some) or isinstance(r, Some):
+                    raise Fail("bin_op", "invalid binary operation on an Optional wrapper")
                 if (l is NIL or r is NIL) and sym not in ("=", "is"):
                     raise Fail("bin_op", "invalid binary operation on nil")     # no operator impl accepts Optional(None)
                 if sym in ("+", "-", "*", "/", "%"):
@@ -383,8 +391,8 @@ class Machine:
             elif op in ("equ", "neq"):
                 if len(ops) != 2:
                     raise Fail(op, "needs exactly two operands")
-                x = self.deref(ops.pop())
-                y = self.deref(ops.pop())
+                x = self.unsome(self.deref(ops.pop()))
+                y = self.unsome(self.deref(ops.pop()))
                 e = equals(x, y)
                 ops.append(e if op == "equ" else logic_not(e))
             elif op == "neg":
@@ -455,6 +463,8 @@ class Machine:
                 if self.deref(ops[-1]) is NIL:
                     ops.pop()
                 else:
+                    if isinstance(self.deref(ops[-1]), Some):
+                        ops[-1] = self.deref(ops[-1]).v      # the present VALUE (fix 68c72f6)
                     nxt = goto(int(a[0]))
             elif op == "store_skip":
                 if int(a[2]) < 0:
@@ -476,10 +486,12 @@ class Machine:
                     raise Fail("unwrap", "needs a value")
                 if self.deref(ops[-1]) is NIL:
                     raise Fail("unwrap", "unwrap of nil")
+                if isinstance(self.deref(ops[-1]), Some):
+                    ops[-1] = self.deref(ops[-1]).v
             elif op == "unwrap_into":
                 if not ops:
                     raise Fail("unwrap_into", "needs a value")
-                v = self.deref(ops.pop())
+                v = self.unsome(self.deref(ops.pop()))
                 self.register_variable(a[0], v)       # nearest binding within the function (fix b1486bc)
                 ops.append(v is not NIL)
             elif op in ("call", "call_self"):
@@ -511,6 +523,8 @@ class Machine:
                         # the native call runs inside its own frame; a failing built-in leaves that frame on the stack
                         self.stack.append(Frame("<native code>#NonSweepingBuiltInFunction(%s)" % NATIVE_NAMES.get(f.name, f.name)))
                         rv = (map_builtin if f.on == "map" else list_builtin)(o, f.name, bargs[0], bargs[1:])
+                        if f.on == "map" and f.name in ("remove", "replace") and rv is not NIL:
+                            rv = Some(rv)       # MapRemove / MapReplace answer Optional(Some(Box(v)))
                         self.stack.pop()
                         if rv is not None:
                             ops.append(rv)
